@@ -1663,6 +1663,14 @@ def make_check_C11(tier):
     picked = [x for i, x in enumerate(pool) if i % stride == 0 or x[0].startswith(("newfunc/", "callgraph2/", "two-entries/"))]
     for sid, spec in picked:
         chk.add("order/%s" % sid, OR.h_order, params=dict(spec=spec), timeout=1800)
+    # the returning blocks of one function have different resolved return targets (b3 returns to the first call site only,
+    # b4 to the second): whatever a patch 'ret' inherits must not depend on the order in which the function's blocks are visited
+    ins = rewrite_shapes.ins
+    for mods in ([ins("b2", 1, "ret")], [ins("b3", 0, "ret")], [ins("b2", 0, "ret"), ins("b4", 1, "mov")]):
+        spec = rewrite_shapes.callgraph_layout(True)
+        spec["ret_override"] = {"b3": ["b1"], "b4": ["b1r"]}
+        spec["mods"] = _c.deepcopy(mods)
+        chk.add("order/split-returns/%s" % rewrite_shapes.mods_name(mods), OR.h_order, params=dict(spec=spec), timeout=1800)
     for abiname in ("x64-elf", "x64-pe", "ia32-pe", "arm64", "mips32"):
         cl = {"x64-elf": ["rax", "r11", "rbx"], "x64-pe": ["rax", "r11", "rbx"], "ia32-pe": ["eax", "ebx", "edx"],
               "arm64": ["x0", "x9", "x20"], "mips32": ["t0", "s1", "v0"]}[abiname]
